@@ -19,6 +19,8 @@ open ALV ALV.J ALV.C04
             sample) and "out" is left out of "model": the caller compares with "spec", which is
             the same list by theorem filterCall_eq_specCall
   entry "compile":  b, a : dense lists, zero  →  {"ir": IR}
+  entry "cascade":  num, den, zero, xs as for "call"; mems : [mem …] one per stage (null = None):
+                    f(f(…f(xs, m₁)…), m_k) with ONE filter object
   entry "hist":  ops : [["nums",c,[q…]] | ["coefs",c,[[power,q]…]] | ["build",f,n,d] |
                         ["call",s,f,x,m|null,zero] | ["take",s,k]]
     payload: {"model":[obs…], "spec":[obs…]}, one observation per op:
@@ -176,6 +178,27 @@ def handle (entry : String) (j : Json) : Except String Json := do
     let ops ← getList getOp (← field j "ops")
     pure <| Json.mkObj [("model", Json.arr (histModelJson HState.empty ops)),
                         ("spec", Json.arr (histSpecJson HState.empty ops))]
+  | "cascade" =>
+    -- the same filter applied to its own output, one memory per stage
+    let num ← getList getPair (← field j "num")
+    let den ← getList getPair (← field j "den")
+    let zero ← getRat (← field j "zero")
+    let xs ← getList getRat (← field j "xs")
+    let mems ← getList (fun m => getMem (Json.mkObj [("mem", m)])) (← field j "mems")
+    let model : Json :=
+      match cascadeWith (fun m ys => filterCall num den m zero ys) mems xs with
+      | .error e => errJson e
+      | .ok out =>
+        match normalise (mkPoly num) (mkPoly den) with
+        | .error e => errJson e
+        | .ok (n, d) =>
+          Json.mkObj [("out", rats out), ("ir", irJson (compile (dense n) (dense d) zero)),
+                      ("b", rats (dense n)), ("a", rats (dense d))]
+    let spec : Json :=
+      match cascadeWith (fun m ys => specCall num den m zero ys) mems xs with
+      | .error e => errJson e
+      | .ok out => Json.mkObj [("out", rats out)]
+    pure <| Json.mkObj [("model", model), ("spec", spec)]
   | "compile" =>
     let b ← getList getRat (← field j "b")
     let a ← getList getRat (← field j "a")
